@@ -707,6 +707,9 @@ func (e *Engine) globalPtr(st *State, g *ssa.Global) *PtrVal {
 		// package-level error sentinel (io.EOF ...): a unique opaque error object
 		id := st.newObj(&StructVal{f: []Value{&StrVal{conc: true, s: g.Name()}}}, nil, "errobj:"+g.String())
 		v = &IfaceVal{t: sentinelErrType(g), v: &PtrVal{obj: id}}
+	} else if g.String() == "context.closedchan" {
+		cid := st.newObj(&ChanContent{closed: true}, nil, "closedchan")
+		v = &ChanVal{obj: cid}
 	} else if iv, ok := e.globalInit(st, g); ok {
 		v = iv
 	} else {
